@@ -13,7 +13,7 @@ FAMILY_DEFAULTS = {
     "flat": dict(MaxNodes=4, MaxDepth=2, DepthLimits={3}, LoopLimits={3}, VarLimits={3}, StrMode=False, InitVal=0),
     "loop": dict(MaxNodes=3, MaxDepth=3, DepthLimits={6}, LoopLimits={2}, VarLimits={3}, StrMode=False, InitVal=0),
     "scope": dict(MaxNodes=4, MaxDepth=3, DepthLimits={8}, LoopLimits={4}, VarLimits={3}, StrMode=False, InitVal=0),
-    "order": dict(MaxNodes=4, MaxDepth=2, DepthLimits={8}, LoopLimits={4}, VarLimits={3}, StrMode=False, InitVal=0),
+    "order": dict(MaxNodes=4, MaxDepth=2, DepthLimits={8}, LoopLimits={4}, VarLimits={3}, StrMode=False, InitVal=-1),
     "reuse": dict(MaxNodes=4, MaxDepth=3, DepthLimits={8}, LoopLimits={4}, VarLimits={3}, StrMode=False, InitVal=0),
     "var": dict(MaxNodes=3, MaxDepth=2, DepthLimits={6}, LoopLimits={4}, VarLimits={2, 4}, StrMode=True, InitVal=1),
 }
@@ -65,7 +65,10 @@ def expr_str(e, strmode):
 
 
 class Conc:
-    """One concretisation of an abstract document."""
+    """One concretisation of an abstract document.  Whitespace is only put
+    AFTER elements: a text node before the first element of a list is a tag of
+    its own for the retry loop of the pinned code, which would make the
+    as-built predictions (known findings) depend on indentation."""
 
     def __init__(self, rec, rnd, wrap=True, indent=False):
         self.rec = rec
@@ -83,7 +86,9 @@ class Conc:
         if k == "leaf":
             a = [f'id="n{i}"'] if not n["href"] else [f'id="r{n["href"]}"']
             a.append(f'class="p{i}"' if not n["href"] else f'class="p{i} n{i}"')
-            if n["ref"]:
+            if n["ref"] == -1:
+                a.append('xy="^|h 1"')
+            elif n["ref"]:
                 a.append(f'xy="#n{n["ref"]}|h 1"')
             else:
                 a.append(f'xy="{3 * i} 0"')
@@ -92,8 +97,6 @@ class Conc:
                 a.append(f'data-v="${n["rd"]}"')
             elif n["val"] >= 0:
                 a.append(f'data-v="{("x" * n["val"]) if self.strmode else n["val"]}"')
-            elif n["href"]:
-                a.append('data-v="$undefined"')
             else:
                 a.append('data-v="-"')
             if n["rnd"]:
@@ -107,16 +110,16 @@ class Conc:
             a += [f'{x}="{v}"' for x, v in n["loc"]]
             if not n["ch"] and self.rnd.random() < 0.5:
                 return f'<g {" ".join(a)}/>{nl}'
-            return f'<g {" ".join(a)}>{nl}{kids}</g>{nl}'
+            return f'<g {" ".join(a)}>{kids}</g>{nl}'
         if k == "cont":
             if n["content"]:
                 return f'<{self.tc_name}>c{i}</{self.tc_name}>{nl}'
-            return f'<{self.cont_name}>{nl}{kids}</{self.cont_name}>{nl}'
+            return f'<{self.cont_name}>{kids}</{self.cont_name}>{nl}'
         if k == "var":
             a = [f'{x}="{expr_str(e, self.strmode)}"' for x, e in n["asg"]]
             return f'<var {" ".join(a)}/>{nl}'
         if k == "if":
-            return f'<if test="{expr_str(n["cond"], False)}">{nl}{kids}</if>{nl}'
+            return f'<if test="{expr_str(n["cond"], False)}">{kids}</if>{nl}'
         if k == "loop":
             if n["form"] == "count":
                 a = [f'count="{n["cnt"]}"']
@@ -128,24 +131,19 @@ class Conc:
                         a.append(f'step="{n["step"]}"')
             else:
                 a = [f'{n["form"]}="{expr_str(n["cond"], False)}"']
-            return f'<loop {" ".join(a)}>{nl}{kids}</loop>{nl}'
+            return f'<loop {" ".join(a)}>{kids}</loop>{nl}'
         if k == "reuse":
             a = [f'id="r{i}"', f'href="#n{n["href"]}"'] + [f'{x}="{v}"' for x, v in n["loc"]]
             return f'<reuse {" ".join(a)}/>{nl}'
         if k == "specs":
-            return f'<specs>{nl}{kids}</specs>{nl}'
+            return f'<specs>{kids}</specs>{nl}'
         raise ValueError(k)
 
     def xml(self, doc=None):
         doc = self.rec["doc"] if doc is None else doc
-        body = ""
-        iv = self.rec["iv"]
-        if iv >= 0:
-            v = ("x" * iv) if self.strmode else str(iv)
-            body += f'<var a="{v}" b="{v}"/>{self.nl}'
-        body += "".join(self.node(n) for n in doc)
+        body = "".join(self.node(n) for n in doc)
         if self.wrap:
-            return f"<svg>{self.nl}{body}</svg>"
+            return f"<svg>{body}</svg>"
         return body
 
     def cfg(self):
@@ -180,7 +178,9 @@ def project_items(out, strmode):
             continue
         for c in el.classes():
             if c.startswith("p") and c[1:].isdigit():
-                items.append({"id": int(c[1:]), "v": decode_value(el.attrs.get("data-v"), strmode)})
+                x = vlib.fnum(el.attrs.get("x", "0"))
+                items.append({"id": int(c[1:]), "v": decode_value(el.attrs.get("data-v"), strmode),
+                              "x": int(x) if x is not None and x == int(x) else x})
                 break
     return items
 
@@ -228,7 +228,7 @@ def doc_brief(rec):
     def b(n):
         s = n["k"]
         if n["k"] == "leaf":
-            s += ("@%d" % n["ref"]) if n["ref"] else ""
+            s += ("@%d" % n["ref"]) if n["ref"] > 0 else ("^" if n["ref"] else "")
             s += (":" + n["rd"]) if n["rd"] != "-" else ""
             s += "+c" if n["content"] else ""
         if n["k"] == "loop":
@@ -252,6 +252,11 @@ def ideal_eval(records, tag):
     path = os.path.join(wd, "docs.ndjson")
     with open(path, "w") as f:
         for r in records:
+            r = dict(r)
+            if r.get("iv", -1) >= 0:
+                lit = {"t": "lit", "x": "-", "v": r["iv"]}
+                r["doc"] = [mk(0, "var", asg=[["a", lit], ["b", lit]])] + r["doc"]
+            r["iv"] = -1
             f.write(json.dumps(r) + "\n")
     cfg = "INIT Init\nNEXT Next\nCHECK_DEADLOCK FALSE\n"
     r = vlib.run_tlc("IdealEval", cfg, tag, workers=1, env={"DOCS": path}, timeout=900)
@@ -344,7 +349,7 @@ def replay_records(rep, recs, seed, tier, compare, variants=2, want_trace=True, 
                     if p is not None and compare(p, c, resp) is None and (p["res"], p["items"]) != (rec["res"], rec["items"]):
                         sig = f"{dev}:{sig}"
                         break
-            rep.violation(sig, {"abstract": doc_brief(rec), "record": {k2: rec[k2] for k2 in ("doc", "lim", "res", "items", "iv", "str")},
+            rep.violation(sig, {"abstract": doc_brief(rec), "record": {k2: rec[k2] for k2 in ("doc", "lim", "res", "items", "str")},
                                 "xml": case["xml"], "cfg": case["cfg"], "status": resp["status"],
                                 "errs": (resp.get("ts", {}).get("end") or {}).get("errs"),
                                 "err": vlib.trunc(resp.get("err")), "out": vlib.trunc(resp.get("out"), 2000),
@@ -405,7 +410,7 @@ def standard_compare(check_items=True, check_rng=False):
                 return None
         if not ok:
             cls, errs = result_class(resp)
-            return (f"result:{rec['res']}->{cls}{'/' + '+'.join(sorted(errs)) if errs else ''}",
+            return (f"result:{rec['res']}->{cls}",
                     f"specification predicts {rec['res']}, implementation returned {cls} {sorted(errs)}")
         if resp["status"] in ("ok", "err") and not probe_clean(resp):
             return ("probe-not-clean", f"end-of-transform probe {resp.get('ts', {}).get('probe')}")
@@ -441,6 +446,47 @@ def deviation_predictions(rep, family, devsets, **over):
     return out
 
 
+def doc_size(doc):
+    return sum(1 + doc_size(n["ch"]) for n in doc)
+
+
+def simulate_family(rep, family, seed, num, compare, devsets=(), tag=None, min_size=0, **over):
+    """Larger documents than the exhaustive bound: random behaviours of the
+    same specification (TLC -simulate); invariants are checked along them."""
+    cfg = mc_cfg(family, export=True, **over)
+    r = vlib.run_tlc("MC_Interp", cfg, f"{family}-sim", workers=8, simulate=num, depth=900, seed=seed, timeout=900)
+    if not r.ok:
+        raise vlib.ToolError(f"simulation of family {family} violates {r.violated}: specification error")
+    uniq = {}
+    for x in r.replay:
+        if doc_size(x["doc"]) >= min_size:
+            uniq.setdefault(doc_key(x), x)
+    recs = list(uniq.values())
+    rep.notes.setdefault("simulation", {})[family] = {"behaviours": len(r.replay), "distinct_documents": len(recs),
+                                                       "bounds": {k: (sorted(v) if isinstance(v, set) else v) for k, v in over.items()}}
+    rep.states += len(r.replay)
+    rep.transitions += len(r.replay)
+    preds = None
+    if devsets and recs:
+        # predictions of the listed deviations for exactly these documents
+        import os
+        import shutil
+        wd = vlib.workdir("given-" + family)
+        path = os.path.join(wd, "given.ndjson")
+        with open(path, "w") as f:
+            for x in recs:
+                f.write(json.dumps({"rawdoc": x["rawdoc"], "lim": x["lim"]}) + "\n")
+        preds = {}
+        for ds in devsets:
+            cfg = vlib.cfg_text(spec="SpecGiven", constants=constants(family, ds, **over), invariants=["Export"], view="view")
+            rd = vlib.run_tlc("MC_Interp", cfg, f"{family}-given", workers=8, env={"GIVEN": path}, timeout=900)
+            preds["+".join(ds)] = {doc_key(x): x for x in rd.replay}
+        shutil.rmtree(wd, ignore_errors=True)
+    replay_records(rep, recs, seed, "quick", compare, variants=1, tag=tag or ("s" + family), trace_budget=20000,
+                   deviation_preds=preds)
+    return recs
+
+
 def family_check(rep, family, tier, seed, compare, over_quick, over_thorough, devsets=(), sample_quick=2500,
                  sample_thorough=40000, tag=None, trace_budget=None, need_outcomes=()):
     rnd = random.Random(seed)
@@ -459,9 +505,98 @@ def family_check(rep, family, tier, seed, compare, over_quick, over_thorough, de
     limit = sample_thorough if tier == "thorough" else sample_quick
     exhaustive = len(recs) <= limit
     if not exhaustive:
-        recs = rnd.sample(recs, limit)
+        # stratified by outcome class so rare classes are not drowned
+        groups = {}
+        for x in recs:
+            groups.setdefault(x["res"] + ("/retried" if x["passes"] else ""), []).append(x)
+        share = max(1, limit // len(groups))
+        picked = []
+        rest = []
+        for g in groups.values():
+            rnd.shuffle(g)
+            picked += g[:share]
+            rest += g[share:]
+        rnd.shuffle(rest)
+        recs = picked + rest[:max(0, limit - len(picked))]
     rep.notes.setdefault("replayed", {})[family] = {"exported": len(r.replay), "replayed": len(recs), "all": exhaustive}
     preds = deviation_predictions(rep, family, devsets, **over) if devsets else None
     replay_records(rep, recs, rnd.random(), tier, compare, variants=2, tag=tag or ("f" + family),
                    trace_budget=trace_budget or (80000 if tier == "thorough" else 25000), deviation_preds=preds)
     return r
+
+
+# --------------------------------------------------------------------------
+# translation validation: T(P) versus T(twin(P)) on the real code
+# --------------------------------------------------------------------------
+def norm_tree(out):
+    """Element tree of an output, as a comparable structure: whitespace-only
+    text dropped, attribute order ignored."""
+    root = vlib.parse_fragment(out)
+
+    def walk(n):
+        res = []
+        for c in n.children:
+            if c.kind == "el":
+                res.append((c.name, tuple(sorted(c.attrs.items())), tuple(walk(c))))
+            elif c.kind in ("text", "cdata"):
+                if c.text.strip():
+                    res.append(("#text", c.text.strip()))
+            elif c.kind == "comment":
+                res.append(("#comment", c.text))
+        return res
+    return walk(root)
+
+
+def twin_check(rep, recs, seed, tag, what):
+    """For every record run the document and its mechanically derived twin
+    (rec['unr'], produced by Sem.Ideal) and require the same element tree."""
+    rnd = random.Random(seed)
+    cases, meta = [], {}
+    for j, rec in enumerate(recs):
+        if rec["ideal"] != "ok":
+            continue
+        sub = random.Random(rnd.random())
+        st = sub.getstate()
+        wrap = sub.random() < 0.7
+        c1 = Conc(rec, sub, wrap=wrap, indent=True)
+        sub2 = random.Random()
+        sub2.setstate(st)
+        sub2.random()
+        c2 = Conc(rec, sub2, wrap=wrap, indent=True)
+        # same container names for both members of the pair
+        c2.cont_name, c2.tc_name = c1.cont_name, c1.tc_name
+        # a shared fixed random stream for optional attribute spellings
+        c1.rnd = random.Random(j)
+        c2.rnd = random.Random(j)
+        x1, x2 = c1.xml(), c2.xml(rec["unr"])
+        cfg = c1.cfg()
+        cfg["depth_limit"] = 100
+        cases.append({"k": f"{tag}-{j}-p", "xml": x1, "cfg": cfg})
+        cases.append({"k": f"{tag}-{j}-t", "xml": x2, "cfg": cfg})
+        meta[j] = (rec, x1, x2, cfg)
+    res = vlib.run_cases(cases)
+    n = 0
+    for j, (rec, x1, x2, cfg) in meta.items():
+        r1, r2 = res[f"{tag}-{j}-p"], res[f"{tag}-{j}-t"]
+        rep.case(doc_key(rec) + what)
+        bad = None
+        if r1["status"] != "ok" or r2["status"] != "ok":
+            bad = (f"{what}:status:{r1['status']}/{r2['status']}", "one member of the pair did not transform")
+        else:
+            try:
+                t1, t2 = norm_tree(r1["out"]), norm_tree(r2["out"])
+            except vlib.XmlError as e:
+                t1, t2, bad = None, None, (f"{what}:not-wellformed", str(e))
+            if bad is None and t1 != t2:
+                bad = (f"{what}:tree-differs", "output of the document and of its twin differ")
+        if bad:
+            rep.violation(bad[0], {"abstract": doc_brief(rec), "xml": x1, "twin_xml": x2, "cfg": cfg,
+                                   "out": vlib.trunc(r1.get("out"), 3000), "twin_out": vlib.trunc(r2.get("out"), 3000),
+                                   "err": vlib.trunc(r1.get("err")), "twin_err": vlib.trunc(r2.get("err")), "detail": bad[1]})
+        else:
+            n += 1
+            rep.traces += 1
+    if meta:
+        j0 = sorted(meta)[len(meta) // 2]
+        rep.sample({"abstract": doc_brief(meta[j0][0]), "xml": meta[j0][1], "twin": meta[j0][2]})
+    rep.notes.setdefault("twin_pairs", {})[what] = {"pairs": len(meta), "equal": n}
